@@ -451,10 +451,6 @@ struct Machine {
 				int id = alloc_id[b];
 				if(op == O_MOVE_CTOR) { slot[a] = std::make_unique<Arr>(std::move(*slot[b])); }
 				else if constexpr(Cfg::stateful) { id = 1 + static_cast<int>(x & 1U); ctx.desc << " alloc" << id;
-					if(id != alloc_id[b] && (Cfg::flags & 8) == 0 && !known_mode()) {
-						// recorded known finding (C10): the allocator-extended move constructor adopts the source buffer even when the supplied allocator is unequal
-						ctx.count("excluded_move_ctor_alloc_unequal"); ctx.desc << " (excluded)"; break;
-					}
 					unknown[b] = true; slot[a] = std::make_unique<Arr>(std::move(*slot[b]), alloc_of(id)); unknown[b] = false; }
 				else { break; }
 				long ops1 = obs().copies_and_moves() + obs().ctor_default + obs().ctor_value;
